@@ -224,9 +224,24 @@ def build(repo=None):
                 raise Unsupported(f"{FUNC}: expected exactly one loop (the dtype loop), found {len(loops)}")
             loop = loops[0]
             mod_vars = sorted({n.id for n in ast.walk(loop) if isinstance(n, ast.Name) and isinstance(n.ctx, ast.Store)})
+            # the loop's variables by ROLE: the flag (stored in the body and tested by the `if <flag>: break`) and the extracted dtype name (what the loop
+            # variable is compared with / matched against)
+            flag_names = sorted({n.test.id for n in ast.walk(loop) if isinstance(n, ast.If) and isinstance(n.test, ast.Name) and any(isinstance(b, ast.Break) for b in n.body)} & set(mod_vars))
+            tgt_name = getattr(loop.target, "id", None)
+            cmp_names = set()
+            for n in ast.walk(loop):
+                if isinstance(n, ast.Compare) and len(n.ops) == 1 and isinstance(n.ops[0], ast.Eq):
+                    pair = [n.left, n.comparators[0]]
+                    if any(isinstance(x, ast.Name) and x.id == tgt_name for x in pair):
+                        cmp_names |= {x.id for x in pair if isinstance(x, ast.Name) and x.id != tgt_name}
+                if isinstance(n, ast.Call) and isinstance(n.func, ast.Attribute) and isinstance(n.func.value, ast.Name) and n.func.value.id == tgt_name:
+                    cmp_names |= {a.id for a in n.args if isinstance(a, ast.Name)}
+            if len(flag_names) != 1 or len(cmp_names) != 1:
+                raise Unsupported(f"dtype loop: cannot tell the flag / the dtype-name variable (flags {flag_names}, names {sorted(cmp_names)})")
+            V_FLAG, V_NAME = flag_names[0], next(iter(cmp_names))
 
             def dtype_name(s):
-                v = s.env.get("dtype")
+                v = s.env.get(V_NAME)
                 if isinstance(v, Z) and v.kind == "str":
                     return v.t
                 if isinstance(v, Opaque):
@@ -242,26 +257,26 @@ def build(repo=None):
                     if not (isinstance(it, Z) and it.kind == "seq:dtspec" and it.t.eq(dtypes)):
                         raise Unsupported("dtype loop does not iterate over cls.dtypes")
                     name = dtype_name(s1)
-                    flag = s1.env.get("in_dtypes")
+                    flag = s1.env.get(V_FLAG)
                     if not (isinstance(flag, Z) and flag.kind == "bool"):
-                        raise Unsupported("in_dtypes not initialised before the loop")
+                        raise Unsupported("the match flag is not initialised before the loop")
                     unfold = lambda j: AnyM(j + 1, name) == z3.Or(AnyM(j, name), Match(dtypes[j], name))
                     e.oblige(s1, "dtype-loop:invariant-on-entry", z3.Not(flag.t))
                     # arbitrary iteration
                     s2 = s1.clone()
                     s2.pc += [0 <= k, k < nd, z3.Not(AnyM(0, name)), z3.Not(AnyM(k, name)), unfold(k)]
-                    s2.env["in_dtypes"] = Z("bool", z3.BoolVal(False))
+                    s2.env[V_FLAG] = Z("bool", z3.BoolVal(False))
                     for v in mod_vars:
-                        if v not in ("in_dtypes",) and v in s2.env and v != getattr(node.target, "id", None):
+                        if v not in (V_FLAG,) and v in s2.env and v != getattr(node.target, "id", None):
                             s2.env[v] = Opaque(f"havoc:{v}")
                     s2.env[node.target.id] = Z("dtspec", dtypes[k])
                     s2.path.append("dtype-loop:iter")
                     for s3, o3 in e.run(node.body, s2):
                         if o3.kind in ("normal", "continue"):
-                            f3 = s3.env.get("in_dtypes")
+                            f3 = s3.env.get(V_FLAG)
                             e.oblige(s3, "dtype-loop:invariant-preserved", z3.And(z3.Not(f3.t), z3.Not(AnyM(k + 1, name))), spec_k=dtypes[k], name=name)
                         elif o3.kind == "break":
-                            f3 = s3.env.get("in_dtypes")
+                            f3 = s3.env.get(V_FLAG)
                             e.oblige(s3, "dtype-loop:break-only-on-a-match", z3.And(f3.t, AnyM(k + 1, name)), spec_k=dtypes[k], name=name)
                             # monotone: AnyMatch(k+1) => AnyMatch(n)  (step lemma below + induction)
                             s4 = s3.fork(z3.And(AnyM(nd, name), f3.t), "dtype-loop:break")
@@ -271,7 +286,7 @@ def build(repo=None):
                     # exit without break
                     s5 = s1.clone()
                     s5.pc += [z3.Not(AnyM(0, name)), z3.Not(AnyM(nd, name))]
-                    s5.env["in_dtypes"] = Z("bool", z3.BoolVal(False))
+                    s5.env[V_FLAG] = Z("bool", z3.BoolVal(False))
                     s5.path.append("dtype-loop:exhausted")
                     outs.append((s5, NORMAL))
                 return outs
@@ -297,7 +312,7 @@ def build(repo=None):
                 # frame: cls untouched
                 if s1.get(cls) is not cls0:
                     eng.oblige(s1, "modifies:annotation-class-untouched", z3.BoolVal(False))
-                name_v = s1.env.get("dtype")
+                name_v = s1.env.get(V_NAME)
                 if name_v is not None and o.kind == "return":
                     # C03: the dtype name is extracted as documented per backend model
                     ma = eng._memo_attr
